@@ -366,9 +366,6 @@ LitValid(c) ==
   /\ c.src = "bool" => c.slot \in {LZ, LONE}
   /\ c.slot = LH => c.src \notin IntLike
   /\ c.im = 1 => c.src \in CplxLike
-  \* purely imaginary numbers are left out: with real part 0.0 / -0.0 the unchanged code has equal ComplexValues
-  \* with different repr (c13.py records that as an observation, it is not judged)
-  /\ c.im = 1 => c.slot # LZ
   /\ c.api = "IntValue" => c.src \notin CplxLike /\ c.slot # LH    \* integers, also given as integral floats
   /\ c.api = "FloatValue" => c.src \notin CplxLike
   /\ c.api = "ComplexValue" => c.src \in CplxLike
